@@ -29,8 +29,9 @@ STATES = ["absent", "absent", "correct", "truncated", "garbage"]
 def make_doc(n, meta, large=False):
     out = bytearray()
     if large:
+        # multi-byte content: byte offsets and character counts differ
         for i in range(n):
-            out += b'{"n":%d}\n' % i
+            out += ('{"n":%d,"t":"é✓"}\n' % i).encode("utf-8")
         return bytes(out)
     for i in range(n):
         if meta:
@@ -96,7 +97,13 @@ def gen(g, tier):
         last = i == n_inc - 1
         inc = {"http": [], "fs": {}, "torn": None, "extract_crash": None}
         # HTTP outcomes of this incarnation's attempts
-        for _ in range(g.pick([0, 0, 1, 1, 2, 4, 10, 11])):
+        if g.coin(0.12):
+            # the retry budget: 9..12 consecutive retryable failures (then a good response)
+            kind = g.pick(["protocol-error", "read-timeout", "short"])
+            n_fail = g.pick([9, 10, 11, 11, 12])
+            for _ in range(n_fail):
+                inc["http"].append({"kind": kind, "after_chunks": g.pick([0, 1])} if kind != "short" else {"kind": "short", "fraction": g.pick([0.3, 0.9]), "content_length": True})
+        for _ in range(g.pick([0, 0, 1, 1, 2, 4, 10, 11]) if not inc["http"] else 0):
             k = g.weighted([4, 3, 3, 2, 2, 2, 1])
             if k == 0:
                 inc["http"].append({"kind": "protocol-error", "after_chunks": g.pick([0, 0, 1])})
@@ -171,6 +178,7 @@ class CorpusHarness(Harness):
         return gen(g, tier)
 
     def enumerated(self, prop, tier):
+        yield from self.enumerated_retry_budget()
         # kill a clean "download archive, decompress, build table" run at every operation index, then run again
         for fmt in ([".bz2", ".zip", None] if tier == "quick" else FORMATS):
             for large in (False, True):
@@ -183,6 +191,16 @@ class CorpusHarness(Harness):
                             c = json.loads(json.dumps(base))
                             c["incarnations"] = [{"http": [], "fs": {str(idx): "kill"}, "torn": torn, "extract_crash": None}, {"http": [], "fs": {}, "torn": None, "extract_crash": None}]
                             yield c
+
+    def enumerated_retry_budget(self):
+        for fmt in (".bz2", None):
+            for decl in ((True, True), (False, False)):
+                for kind in ("protocol-error", "read-timeout", "short"):
+                    for n_fail in (9, 10, 11, 12):
+                        base = {"docs": 40, "large": False, "meta": False, "format": fmt, "declare_compressed": decl[0], "declare_uncompressed": decl[1], "base_url": True, "offline": False, "test_mode": False, "bundled": False, "initial": {"doc": "absent", "archive": "absent", "tmp": "absent", "offset": "absent"}, "flush": 4096}
+                        out = {"kind": kind, "after_chunks": 0} if kind != "short" else {"kind": "short", "fraction": 0.9, "content_length": True}
+                        base["incarnations"] = [{"http": [dict(out) for _ in range(n_fail)], "fs": {}, "torn": None, "extract_crash": None}]
+                        yield base
 
     def simplify(self, prop, cfg):
         def cp():
